@@ -31,6 +31,13 @@ Verdict(r) ==
            THEN {<<"RestoreEntries", "missing", Paths(r.src) \ Paths(r.restored), "extra", Paths(r.restored) \ Paths(r.src)>>} ELSE {})
           \cup {<<"RestoreDiffers", p, Attr(r.src, p), Attr(r.restored, p)>> :
                   p \in {q \in Paths(r.src) \cap Paths(r.restored) : Attr(r.src, q) # Attr(r.restored, q)}})
+    \* the same restore once more, over the restored copy with trailing parts of its files overwritten
+    \cup (IF r.restore2 = "skipped" THEN {}
+          ELSE IF r.restore2 # "ok" THEN {<<"RestoreAgainFailed", r.restore2, r.restore2_msg>>}
+          ELSE (IF Paths(r.restored2) # Paths(r.src)
+                THEN {<<"RestoreAgainEntries", Paths(r.src) \ Paths(r.restored2), Paths(r.restored2) \ Paths(r.src)>>} ELSE {})
+               \cup {<<"RestoreAgainDiffers", p, Attr(r.src, p), Attr(r.restored2, p)>> :
+                       p \in {q \in Paths(r.src) \cap Paths(r.restored2) : Attr(r.src, q) # Attr(r.restored2, q)}})
     \cup (IF r.read # "ok" THEN {<<"ReadFailed", r.read, r.read_msg>>}
           ELSE (IF Paths(r.ls) # Paths(r.src) THEN {<<"LsEntries", Paths(r.src) \ Paths(r.ls), Paths(r.ls) \ Paths(r.src)>>} ELSE {})
                \cup {<<"LsOrDumpDiffers", p, Attr(r.src, p), Attr(r.ls, p)>> :
